@@ -71,6 +71,8 @@ class metrics_create_sbix:
     reject an sbix build (C14 allows rejecting only what the format cannot represent; C20:
     bitmap_resolution is the strike size)"""
 
+    timeout_s = 40  # nonlinear placement clauses: headroom for a fully loaded machine
+
     args = {"cls": ClassOf("nanoemoji.bitmap_tables.BitmapMetrics"), "config": _CFG_SBIX, "image_data": PNG, "ppem": Int}
     requires = [
         lambda config, image_data, ppem: _sane(config) and image_data.size[0] > 0 and image_data.size[1] > 0 and ppem == round(config.upem * image_data.size[1] / em(config))
@@ -88,6 +90,7 @@ class metrics_create_sbix:
 
 @contract("nanoemoji.bitmap_tables.BitmapMetrics.create", props=["C14"])
 class metrics_create:
+    timeout_s = 40  # nonlinear placement clauses: headroom for a fully loaded machine
     args = {"cls": ClassOf("nanoemoji.bitmap_tables.BitmapMetrics"), "config": CFG, "image_data": PNG, "ppem": Int}
     requires = [
         lambda config, image_data, ppem: _sane(config)
@@ -229,6 +232,7 @@ def _sbix_glyph(ttfont, i):
 
 @contract("nanoemoji.bitmap_tables.make_sbix_table", props=["C14"])
 class sbix_one_ppem:
+    timeout_s = 40  # nonlinear placement clauses: headroom for a fully loaded machine
     scope = "finite: 1..2 colour glyphs; sizes, metrics and configuration unconstrained"
     args = {
         "config": CFG,
